@@ -16,6 +16,7 @@ package c13
 
 import (
 	"encoding/binary"
+	"encoding/json"
 	"fmt"
 	"net/http"
 	"os"
@@ -403,9 +404,12 @@ func runHistory(t *testing.T, cfg config, forced []string, depth int, c *mc.Choo
 			}
 			m.Released(id)
 		}
+		var sofar []string
 		play := func(l *letter) {
 			rec := stepRec{Letter: l.name}
 			x.tag++
+			sofar = append(sofar, l.name)
+			journal("C13_HISTORY=%d:%s", cfg.maxStreams, strings.Join(sofar, ",")) // the driver attributes a worker crash to this history
 			if l.rel {
 				id := m.HeldHandlers()[0]
 				rec.Frame = fmt.Sprintf("(release handler of stream %d)", id)
@@ -683,7 +687,11 @@ func TestCheck(t *testing.T) {
 		budget = 13 * time.Minute
 	}
 	deadline := time.Now().Add(budget)
-	rep.Info["rule"] = "history = sequence of abstract letters (one client frame or one handler release each), instantiated against the reference machine's state and replayed on a fresh real serverConn; every history up to the stated depth is executed (after a connection error only the probe letters H_NEW_ES_NOW, H_NEW_HOLD, PING, RELEASE continue it); pruned phases expand one representative history per (reference state, remaining depth); distinct_nontrivial = distinct (letter, (frame,state) class, reaction class) triples in which the server reacted with more than nothing or the frame was not plain-legal"
+	if rp := os.Getenv("VERIF_REPLAY"); rp != "" {
+		replayFile(t, rep, rp)
+		return
+	}
+	rep.Info["rule"] = "history = sequence of abstract letters (one client frame or one handler release each), instantiated against the reference machine's state (next odd id / an open stream / the half-closed stream / the stream closed last / an idle id) and replayed on a fresh real http2 serverConn in its own bubble; phases '<config>/depthN' execute EVERY letter sequence of length <= N over the full alphabet (after a connection error only the probe letters H_NEW_ES_NOW, H_NEW_HOLD, PING, RELEASE continue a history; a history stops after a connection-fatal frame that was answered with an admissible stream error only); phases '.../core/depthN/pruned' run the 24 core letters to depth N and expand one representative history per (reference state, remaining depth); configs: first-frame = nothing after the preface, maxK = preface+SETTINGS with SETTINGS_MAX_CONCURRENT_STREAMS=K; states = distinct (config, reference machine state) keys reached; distinct_nontrivial = distinct (letter, (frame,state) class, reaction class) triples in which the server reacted with more than nothing or the frame was not plain-legal"
 	rep.Info["alphabet"] = letterNames()
 	rep.Info["alphabet_size"] = len(alpha)
 	rep.Assume(
@@ -740,7 +748,6 @@ func TestCheck(t *testing.T) {
 				ex = &mc.Explorer{Bound: 0, Deadline: deadline, RecheckN: 50, MaxFound: 40}
 			}
 			run := func(c *mc.Chooser) mc.Outcome {
-				journal("phase %s forced %v choices %v", name, forced, c.Choices())
 				res, out := runHistory(t, ph.cfg, forced, depth, c, ph.prune)
 				rep.Add("transitions", int64(len(res.steps)))
 				for _, k := range res.keys {
@@ -878,6 +885,44 @@ func report(t *testing.T, rep *ev.Report, ph phase, name string, forced []string
 	rep.Violate(map[string]any{"kind": parts[0], "state": parts[1], "got": parts[2]},
 		map[string]any{"phase": name, "max_concurrent_streams": ph.cfg.maxStreams, "letters": append(append([]string{}, ph.cfg.prefix...), letters...), "history": last.steps},
 		"%s", f.What)
+}
+
+// replayFile re-executes the history stored in a replay file written by the driver (bin/check C13 --replay FILE).
+func replayFile(t *testing.T, rep *ev.Report, path string) {
+	var doc struct {
+		Replay struct {
+			Max     int      `json:"max_concurrent_streams"`
+			Letters []string `json:"letters"`
+			Case    string   `json:"case"`
+		} `json:"replay"`
+	}
+	b, err := os.ReadFile(path)
+	if err == nil {
+		err = json.Unmarshal(b, &doc)
+	}
+	if err == nil && len(doc.Replay.Letters) == 0 && strings.HasPrefix(doc.Replay.Case, "C13_HISTORY=") { // a process-death record
+		ms, ls, _ := strings.Cut(strings.TrimSpace(strings.TrimPrefix(strings.SplitN(doc.Replay.Case, "\n", 2)[0], "C13_HISTORY=")), ":")
+		doc.Replay.Max, _ = strconv.Atoi(ms)
+		doc.Replay.Letters = strings.Split(ls, ",")
+	}
+	if err != nil || len(doc.Replay.Letters) == 0 {
+		rep.HarnessError("cannot read replay file %s: %v", path, err)
+		return
+	}
+	res, out := runHistory(t, config{name: "replay", maxStreams: doc.Replay.Max}, doc.Replay.Letters, 0, nil, false)
+	for _, s := range res.steps {
+		fmt.Printf("%-22s %-40s %-60s -> %v handlers=%v\n", s.Letter, s.Frame, s.Class, s.Out, s.Starts)
+	}
+	rep.Add("evaluations", 1)
+	rep.Add("transitions", int64(len(res.steps)))
+	rep.Add("traces_validated_against_impl", 1)
+	rep.Sample(map[string]any{"history": res.steps})
+	rep.Info["rule"] = "replay of one stored history"
+	for i, v := range out.Violations {
+		parts := append(strings.SplitN(out.Sigs[i], "|", 3), "", "")
+		rep.Violate(map[string]any{"kind": parts[0], "state": parts[1], "got": parts[2]},
+			map[string]any{"max_concurrent_streams": doc.Replay.Max, "letters": doc.Replay.Letters, "history": res.steps}, "%s", v)
+	}
 }
 
 // journal: which case is running, for the driver's crash attribution (one pwrite per execution).
